@@ -79,12 +79,24 @@ def _call(payload):
 _POOL = None
 
 
+def _replay_call(payload):
+    modname, rp = payload
+    mod = importlib.import_module(modname)
+    return json.dumps(js(mod.replay(rp)), sort_keys=True)
+
+
+def fresh_replay(mod, rp) -> str:
+    """Run ``mod.replay(rp)`` in a freshly forked child (same process state as a pool worker)."""
+    with mp.get_context("fork").Pool(1, maxtasksperchild=1) as pool:
+        return pool.apply(_replay_call, ((mod.__name__, rp),))
+
+
 def pmap(modname: str, funcname: str, args: list, procs: int | None = None, chunksize: int = 1):
     """Run ``modname.funcname(arg)`` for every arg, in worker processes; yields results."""
     global _POOL
     procs = procs or int(os.environ.get("QV_PROCS", os.cpu_count() or 4))
     payloads = [(modname, funcname, a) for a in args]
-    if procs <= 1 or len(args) <= 1:
+    if procs <= 1 or not args:
         for p in payloads:
             r = _call(p)
             if "harness_error" in r:
@@ -92,7 +104,9 @@ def pmap(modname: str, funcname: str, args: list, procs: int | None = None, chun
             yield r
         return
     if _POOL is None:
-        _POOL = mp.get_context("fork").Pool(procs)
+        # one task per forked worker: process-global state leaked by the code under test cannot
+        # carry over from one task to the next, so every task starts from the same process state
+        _POOL = mp.get_context("fork").Pool(procs, maxtasksperchild=1)
     for r in _POOL.imap_unordered(_call, payloads, chunksize):
         if "harness_error" in r:
             raise HarnessError(r["harness_error"])
@@ -140,8 +154,8 @@ def run_check(pid: str, tier: str) -> int:
         rp = vs[0].get("replay") or {}
         if hasattr(mod, "replay") and rp.get("func") and os.environ.get("QV_NO_REPLAY") != "1":
             try:
-                a = json.dumps(js(mod.replay(rp)), sort_keys=True)
-                b = json.dumps(js(mod.replay(rp)), sort_keys=True)
+                a = fresh_replay(mod, rp)
+                b = fresh_replay(mod, rp)
             except Exception as e:  # noqa: BLE001
                 a, b = f"replay raised {type(e).__name__}: {e}", None
             if b is not None and a != b:
@@ -190,7 +204,7 @@ def run_replay(path: str) -> int:
         return 2
     outs = []
     for _ in range(2):
-        outs.append(json.dumps(js(mod.replay(data["replay"])), sort_keys=True))
+        outs.append(fresh_replay(mod, data["replay"]))
     if outs[0] != outs[1]:
         print("HARNESS-ERROR: replay is not deterministic")
         return 2
